@@ -255,6 +255,37 @@ int main(int argc, char** argv) {
           emit_points(r, dags, specs, in, out, pl);
         }
       }
+      // ---------------- E: the solution sits on (or a few floats away from) the END POINT OF A SLICE of the shaving process:
+      //                     x0 - x1 = 0, x0 + x1 = 2c (solution (c,c), exact for every double c); the end points are computed as the
+      //                     library does (lb + k*w and (lb + (k-1)*w) + w, w = diam / s3b, same rounding mode), c is one of the floats around them
+      {
+        Array<const ExprSymbol> sx(2); sx.set_ref(0, ExprSymbol::new_("z0", Dim::scalar())); sx.set_ref(1, ExprSymbol::new_("z1", Dim::scalar()));
+        int s3b = r.range(3, 12); int var = r.below(2);
+        double lb = r.range(-40, 40) / 8.0 + (r.coin() ? 0.0 : r.range(1, 9) / 10.0), diam = r.range(1, 40) / 4.0 + (r.coin() ? 0.0 : r.range(1, 9) / 10.0);
+        volatile double ub = lb + diam; volatile double w = (ub - lb) / s3b;
+        int k = r.range(1, s3b - 1);
+        volatile double b1 = lb + k * w; volatile double b0 = lb + (k - 1) * w; volatile double b2 = b0 + w;
+        double lo = std::min((double)b1, (double)b2), hi = std::max((double)b1, (double)b2);
+        for (int q = 0; q < 2; q++) { lo = std::nextafter(lo, -1e300); hi = std::nextafter(hi, 1e300); }
+        vector<double> cand; for (double c = lo; c <= hi && cand.size() < 64; c = std::nextafter(c, 1e300)) cand.push_back(c);
+        for (int rep = 0; rep < 4 && !cand.empty(); rep++) {
+          double c = cand[r.below(cand.size())];
+          const ExprNode& e1 = sx[0] - sx[1];
+          const ExprNode& e2 = sx[0] + sx[1] - ExprConstant::new_scalar(2 * c);
+          SystemFactory fac; fac.add_var(sx); fac.add_ctr(ExprCtr(e1, EQ)); fac.add_ctr(ExprCtr(e2, EQ));
+          string dags = dump_expr(e1, sx) + "|" + dump_expr(e2, sx), specs = "eq|eq";
+          System sys(fac);
+          Vector pl(2); pl[0] = c; pl[1] = c;
+          CtcHC4 hc4(sys, r.coin() ? 0.01 : 0.1, r.coin(30));
+          Ctc3BCid cid(hc4, s3b, r.range(1, 3), -1, 1e-11);
+          CtcAcid acid(sys, hc4, false, s3b, r.range(1, 3), 1e-11, 0.005);
+          Ctc& ct = r.coin(75) ? (Ctc&)cid : (Ctc&)acid;
+          IntervalVector in(2); in[var] = Interval(lb, ub); in[1 - var] = Interval(c - r.range(1, 16) / 4.0, c + r.range(1, 16) / 4.0);
+          IntervalVector out = in; ct.contract(out);
+          check_round_up("3bcid-slice-end");
+          emit_points(r, dags, specs, in, out, pl);
+        }
+      }
       } catch (std::exception& e) { EMIT("harnesserror %s => 0\n", e.what()); }
     }
   } else if (wl == "c04t") { wl_c04t(r, n);
